@@ -60,13 +60,19 @@ fn gen_target(r: &mut Rng, n: usize, pool: &[Option<usize>]) -> T {
 }
 
 pub fn run(cfg: &Cfg, out: &mut Out) {
+    // the op store / index fsync on every commit: keep the scratch repos on tmpfs when available
+    if std::env::var_os("TMPDIR").is_none() && std::path::Path::new("/dev/shm").is_dir() {
+        unsafe { std::env::set_var("TMPDIR", "/dev/shm") };
+    }
     let mut r = cfg.rng(12);
     let dags = cfg.n(500, 8000);
+    // all DAGs of a block live in one repo, each in its own transaction on the initial operation
+    let mut test_repo = TestRepo::init();
     let per_dag = 60;
     for d in 0..dags {
         // ---- build a DAG in a real repo: commit 0 = root, then 3..=9 more
         let n_new = if d < 10 { 3 } else { r.range(3, 9) };
-        let test_repo = TestRepo::init();
+        if d % 100 == 99 { test_repo = TestRepo::init(); }
         let mut tx = test_repo.repo.start_transaction();
         let root = test_repo.repo.store().root_commit();
         let mut commits: Vec<Commit> = vec![root];
